@@ -273,6 +273,19 @@ func checkC03Conserve(c *Ctx, n int) {
 				if !lc.declared["-Z"] && !lc.declared["--zz-unk"] && !lc.declared["--zz"] {
 					toks = append(toks, tok{"U", u})
 				}
+			case x < 8 && len(lc.chain) >= 2:
+				// the name or an alias of a command of an outer level (the active command's own, a
+				// sibling's): below the active command it is a word like any other
+				var outer []string
+				for _, up := range lc.chain[:len(lc.chain)-1] {
+					for _, sib := range up.Commands() {
+						outer = append(outer, sib.Name)
+						outer = append(outer, sib.Aliases...)
+					}
+				}
+				if w := outer[r.Intn(len(outer))]; w != "" && !lc.isCommandWord(w) && !strings.HasPrefix(w, "-") {
+					toks = append(toks, tok{"W", w})
+				}
 			default:
 				w := wordPool[r.Intn(len(wordPool))]
 				if !lc.isCommandWord(w) {
